@@ -92,6 +92,39 @@ def build_cases(rng, tier):
         c = engine.make_case("p%d" % i, r, prog=prog, flex_opts=r.pick(TABLE_OPTS), extra_options=["posix-compat"], ninputs=4)
         c['inputs'].append([97, 98, 97, 98, 99, 32, 97, 98, 97, 98, 97, 98, 99, 32, 120, 121, 122, 99, 10])
         cases.append(c)
+    # syntax corners written by hand (text, tree the manual gives it): ']' and '-' as first / last members of a bracket expression,
+    # pattern comments (?# ), escaped delimiters
+    def S(neg, *members):
+        return ('cls', ('set', neg, [('ch', m) for m in members]))
+    CORNERS = [
+        ("[]a]+", ('plus', S(False, 93, 97))),
+        ("[^]a]b", ('cat', S(True, 93, 97), ('c', 98))),
+        ("[-a]c", ('cat', S(False, 45, 97), ('c', 99))),
+        ("[a-]d", ('cat', S(False, 97, 45), ('c', 100))),
+        ("[^-a]e", ('cat', S(True, 45, 97), ('c', 101))),
+        ("a(?#note)b", ('cat', ('c', 97), ('c', 98))),
+        ("(?#lead)z+", ('plus', ('c', 122))),
+        ("x(?# a|b )*", ('star', ('c', 120))),
+        ("[[:alnum:]]{2}", ('rep', ('cls', ('set', False, [('px', False, 0)])), 2)),
+        ('"a]b"', ('str', [97, 93, 98])),
+        ("\\]\\-", ('cat', ('c', 93), ('c', 45))),
+        ("[\\]x]y", ('cat', S(False, 93, 120), ('c', 121))),
+        ("[a\\-c]w", ('cat', S(False, 97, 45, 99), ('c', 119))),
+    ]
+    for i in range(16 if tier == "quick" else 200):
+        r = rng.fork("corner%d" % i)
+        k = r.rng(3, 6)
+        picks = []
+        while len(picks) < k:
+            e = r.pick(CORNERS)
+            if e not in picks:
+                picks.append(e)
+        prog = {'csize': 256, 'caseins': False, 'scs': [],
+                'rules': [{'head': h, 'bol': False, 'scs': None, 'trail': None} for _, h in picks],
+                'pats': [t for t, _ in picks]}
+        c = engine.make_case("k%d" % i, r, prog=prog, flex_opts=r.pick(TABLE_OPTS), ninputs=4)
+        c['inputs'].append([93, 97, 93, 98, 45, 99, 97, 45, 100, 93, 101, 97, 98, 122, 122, 120, 120, 49, 50, 97, 93, 98, 93, 45, 120, 121, 45, 119, 10])
+        cases.append(c)
     kinds = ['keywords', 'classes', 'conditions', 'dfa', 'nfa']
     reps = 1 if tier == "quick" else 6
     for k in kinds:
